@@ -59,8 +59,10 @@ type Fault struct {
 	// fails with the same errno and writes nothing (disk full, quota or file
 	// size limit reached: the condition persists for the rest of the run).
 	Sticky bool `json:"sticky,omitempty"`
-	// extern: another process changes a file just before operation AtOp:
-	// Data is appended to the regular file at Path (its mtime advances).
+	// extern: another process changes the tree just before operation AtOp: by
+	// default Data is appended to the regular file at Path (its mtime advances);
+	// with Errno "REMOVE" the file is removed, with "PARENT-TO-FILE" the directory
+	// it lives in is replaced by a plain file.
 	Path string `json:"path,omitempty"`
 	Data Bytes  `json:"data,omitempty"`
 }
